@@ -101,6 +101,18 @@ func runC07(r *Run, verifDir string) {
 			}
 		}
 	}
+	// S1 (third clause): the extent is derived from everything received so far, buf[:read+n]
+	if readNext != nil {
+		cs, ok := cnbCall.Call.Args[0].(*ssa.Slice)
+		switch {
+		case !ok:
+			r.Bad("C07.S1", "ttlv.Stream.Recv/extent-source", cnbCall.Pos(), "the announced extent is not computed from a prefix of the receive buffer")
+		case cs.Low != nil || cs.High != ssa.Value(readNext):
+			r.Bad("C07.S1", "ttlv.Stream.Recv/extent-source", cnbCall.Pos(), "the announced extent is not computed from buf[:read+n], all the bytes received so far: when the transport delivers fewer than 8 bytes in one read the extent falls back to 8 (or is read from the wrong bytes) and the stream is desynchronised")
+		default:
+			r.OK("C07.S1", "ttlv.Stream.Recv/extent-source", cnbCall.Pos(), "computeNeededBytes(buf[:read+n])")
+		}
+	}
 	if readNext == nil {
 		r.Unk("C07.S2", "ttlv.Stream.Recv/complete", fn.Pos(), "`read += n` not recognised")
 	} else {
